@@ -77,125 +77,167 @@ def garb(n=6):
     return '{ var %s = 0; while %s < %d { var t%s = [%s, (%s, "x${%s}")]; %s += 1; } }' % (g, g, n, g, g, g, g, g)
 
 
-def window(body=""):
-    """the probed object is alive ONLY through the probed role between the two @@C marks"""
-    return 'print("@@C"); %s %s print("@@C");' % (body, garb())
+def evict():
+    """builds 9 distinct ranges: whatever range was built before is pushed out of the VM's 8-entry range cache
+    (vm.rs build_range keeps a Root per cached range), so that the cache is no longer an owner of it"""
+    _gctr[0] += 1
+    e = "e%d_" % _gctr[0]
+    return "{ var %s = 0; while %s < 9 { var r%s = (7000 + %s)..(7100 + %s); %s += 1; } }" % (e, e, e, e, e, e)
+
+
+def window(body="", pre=""):
+    """the probed object is alive ONLY through the probed role between the two @@C marks; @@PREMISE makes the
+    harness verify that claim on a heap snapshot (hook H2) for the object tagged with T(..)"""
+    return 'print("@@C"); %s print("@@PREMISE"); %s %s print("@@C");' % (pre, body, garb())
 
 
 # shapes of the probed object X: (name, constructor expression, expression printing it given variable x)
+# (no string payloads: every ObjString is permanently rooted by the intern table, so a string is never
+#  reachable ONLY through anything)
 SHAPES = [
     ("vec", '[1, "two", [3]]', "{x}"),
     ("tuple", '(1, "two", (3, 4))', "{x}"),
     ("inst", 'P.new([7, 8])', "{x}.v"),
 ]
-PRELUDE = "#[constructor(new)] class P { #[constructor] fn new(self, v) { self.v = v; } fn get(self) { return self.v; } }\n"
+# T(x) tags x as the probed object of the program (see ext_c01.rs)
+PRELUDE = ("#[constructor(new)] class P { #[constructor] fn new(self, v) { self.v = v; } fn get(self) { return self.v; } }\n"
+           'fn T(x) { print(("@@TAG", x)); return x; }\n')
+DRAIN = "var n_ = c.next(); var k_ = 0; while !n_.derives(StopIter) && k_ < 50 { print(n_); n_ = c.next(); k_ += 1; } print(k_);"
 
 
 def probes():
-    """list of dicts: tag, role, shape, src, mods, known (class name or None), regrey (bool)"""
+    """list of dicts: tag, role, shape, src, mods, known (class name or None), holders.
+    holders: type-name fragments of the ONLY boxes allowed to hold the tagged object at the collection point
+    (premise of the probe, verified by the harness); None = the program tags nothing (premise not checkable)"""
     out = []
 
-    def add(tag, role, shape, src, known=None, mods=None, regrey=False):
+    def add(tag, role, shape, src, known=None, mods=None, regrey=False, holders=None, why_no_premise=None, max_holders=1):
         out.append({"tag": tag, "role": role, "shape": shape, "src": PRELUDE + src, "mods": mods or {},
-                    "known": known, "regrey": regrey})
+                    "known": known, "regrey": regrey, "holders": holders, "why_no_premise": why_no_premise,
+                    "max_holders": max_holders})
 
+    UP = ["ObjUpvalue"]
+    FB = ["ObjFiber"]
     for sname, mk, show in SHAPES:
-        X = mk
+        X = "T(%s)" % mk
         pr = lambda e: "print(%s);" % show.format(x=e)
         # containers
-        add("elem", "vec element", sname, "fn mk() { return [0, %s]; } var c = mk(); %s %s" % (X, window(), pr("c[1]")))
-        add("elem", "tuple element", sname, "fn mk() { return (0, %s); } var c = mk(); %s %s" % (X, window(), pr("c[1]")))
-        add("value", "map value", sname, 'fn mk() { var m = {}; m.insert("k", %s); return m; } var c = mk(); %s %s' % (X, window(), pr('c.get("k")')))
-        add("value", "map value (literal)", sname, 'fn mk() { return {"k": %s, 2: 3}; } var c = mk(); %s %s' % (X, window(), pr('c.get("k")')))
-        add("field", "instance field", sname, "fn mk() { var i = P.new(0); i.f = %s; return i; } var c = mk(); %s %s" % (X, window(), pr("c.f")))
+        add("elem", "vec element", sname, "fn mk() { return [0, %s]; } var c = mk(); %s %s" % (X, window(), pr("c[1]")), holders=["ObjVec"])
+        add("elem", "tuple element", sname, "fn mk() { return (0, %s); } var c = mk(); %s %s" % (X, window(), pr("c[1]")), holders=["ObjTuple"])
+        add("value", "map value", sname, 'fn mk() { var m = {}; m.insert("k", %s); return m; } var c = mk(); %s %s' % (X, window(), pr('c.get("k")')), holders=["ObjHashMap"])
+        add("value", "map value (literal)", sname, 'fn mk() { return {"k": %s, 2: 3}; } var c = mk(); %s %s' % (X, window(), pr('c.get("k")')), holders=["ObjHashMap"])
+        add("field", "instance field", sname, "fn mk() { var i = P.new(0); i.f = %s; return i; } var c = mk(); %s %s" % (X, window(), pr("c.f")), holders=["ObjInstance"])
         # closures
-        add("upvalue", "closed upvalue", sname, "fn mk() { var x = %s; fn g() { return x; } return g; } var c = mk(); %s %s" % (X, window(), pr("c()")))
+        add("upvalue", "closed upvalue", sname, "fn mk() { var x = %s; fn g() { return x; } return g; } var c = mk(); %s %s" % (X, window(), pr("c()")), holders=UP)
         add("upvalue", "closed upvalue shared by two closures, written through one", sname,
-            "fn mk() { var x = 0; fn s(v) { x = v; } fn g() { return x; } return (s, g); } var c = mk(); c[0](%s); %s %s" % (X, window(), pr("c[1]()")))
+            "fn mk() { var x = 0; fn s(v) { x = v; } fn g() { return x; } return (s, g); } var c = mk(); c[0](%s); %s %s" % (X, window(), pr("c[1]()")), holders=UP)
         add("open", "open upvalue (enclosing frame still active)", sname,
-            "fn outer() { var x = %s; fn g() { return x; } %s return g(); } var r = outer(); %s" % (X, window(), pr("r")))
+            "fn outer() { var x = %s; fn g() { return x; } %s return g(); } var r = outer(); %s" % (X, window(), pr("r")), holders=FB)
         add("open", "open upvalue kept only by the fiber's open list, re-captured later", sname,
-            "fn outer() { var x = %s; { fn a() { return x; } } %s fn b() { return x; } return b; } var r = outer(); %s %s" % (X, window(), garb(), pr("r()")))
+            "fn outer() { var x = %s; { fn a() { return x; } } %s fn b() { return x; } return b; } var r = outer(); %s %s" % (X, window(), garb(), pr("r()")), holders=FB)
         add("upvalue", "nested closure (upvalue of an upvalue)", sname,
-            "fn mk() { var x = %s; fn a() { fn b() { return x; } return b; } return a; } var c = mk(); %s var d = c(); %s %s" % (X, window(), garb(), pr("d()")))
+            "fn mk() { var x = %s; fn a() { fn b() { return x; } return b; } return a; } var c = mk(); %s var d = c(); %s %s" % (X, window(), garb(), pr("d()")), holders=UP)
         # classes
         add("method", "instance -> class -> method table -> closure -> upvalue", sname,
-            "fn mk() { var x = %s; #[constructor(new)] class C { fn m(self) { return x; } } return C.new(); } var c = mk(); %s %s" % (X, window(), pr("c.m()")))
+            "fn mk() { var x = %s; #[constructor(new)] class C { fn m(self) { return x; } } return C.new(); } var c = mk(); %s %s" % (X, window(), pr("c.m()")), holders=UP)
         add("metaclass", "class -> metaclass -> static method -> upvalue", sname,
-            "fn mk() { var x = %s; class C { #[static] fn s() { return x; } } return C; } var c = mk(); %s %s" % (X, window(), pr("c.s()")))
+            "fn mk() { var x = %s; class C { #[static] fn s() { return x; } } return C; } var c = mk(); %s %s" % (X, window(), pr("c.s()")), holders=UP)
         add("method", "inherited method copied into the subclass", sname,
-            "fn mk() { var x = %s; class A { fn m(self) { return x; } } #[derive(A), constructor(new)] class B {} return B.new(); } var c = mk(); %s %s" % (X, window(), pr("c.m()")))
+            "fn mk() { var x = %s; class A { fn m(self) { return x; } } #[derive(A), constructor(new)] class B {} return B.new(); } var c = mk(); %s %s" % (X, window(), pr("c.m()")), holders=UP)
         add("class", "class under construction (methods defined while allocating)", sname,
-            "fn mk() { var x = %s; #[constructor(new)] class C { fn a(self) { return x; } fn b(self) { return [x]; } #[static] fn s() { return (x, 1); } fn c(self) { return self.a(); } } return C; } %s var k = mk(); print(\"@@C\"); %s %s" % (X, 'print("@@C");', pr("k.new().c()"), pr("k.s()[0]")))
-        # bound methods
+            "fn mk() { var x = %s; print(\"@@PREMISE\"); #[constructor(new)] class C { fn a(self) { return x; } fn b(self) { return [x]; } #[static] fn s() { return (x, 1); } fn c(self) { return self.a(); } } return C; } %s var k = mk(); print(\"@@C\"); %s %s" % (X, 'print("@@C");', pr("k.new().c()"), pr("k.s()[0]")),
+            holders=UP + FB)
+        # bound methods: the probed object is the RECEIVER
         add("receiver", "bound closure method -> receiver", sname,
-            "fn mk() { var i = P.new(%s); return i.get; } var c = mk(); %s %s" % (X, window(), pr("c()")))
+            "fn mk() { var i = T(P.new(%s)); return i.get; } var c = mk(); %s %s" % (mk, window(), pr("c()")), holders=["ObjBoundMethod"])
         add("receiver", "bound native method -> receiver", sname,
-            "fn mk() { var v = [%s, 5]; return v.pop; } var c = mk(); %s c(); %s" % (X, window(), pr("c()")))
-        # iterators
-        add("iter", "vec iterator -> iterable", sname, "fn mk() { return [%s, 2].iter(); } var c = mk(); %s %s" % (X, window(), pr("c.next()")))
-        add("iter", "tuple iterator -> iterable", sname, "fn mk() { return (%s, 2).iter(); } var c = mk(); %s %s" % (X, window(), pr("c.next()")))
+            "fn mk() { var v = T([%s, 5]); return v.pop; } var c = mk(); %s c(); %s" % (mk, window(), pr("c()")), holders=["ObjBoundMethod"])
+        # iterators: the probed object is the ITERABLE
+        add("iter", "vec iterator -> iterable (explicit .iter())", sname, "fn mk() { return T([%s, 2]).iter(); } var c = mk(); %s %s" % (mk, window(), pr("c.next()")), holders=["ObjVecIter"])
+        add("iter", "tuple iterator -> iterable (explicit .iter())", sname, "fn mk() { return T((%s, 2)).iter(); } var c = mk(); %s %s" % (mk, window(), pr("c.next()")), holders=["ObjTupleIter"])
+        add("iter", "vec only through the iterator of a running for loop", sname,
+            "fn mk() { return T([%s, [2], [3]]); } var k = 0; for e in mk() { %s k += 1; if k == 1 { %s } else { print(e); } } print(k);" % (mk, window(), pr("e")), holders=["ObjVecIter"])
+        add("iter", "tuple only through the iterator of a running for loop", sname,
+            "fn mk() { return T((%s, [2], [3])); } var k = 0; for e in mk() { %s k += 1; if k == 1 { %s } else { print(e); } } print(k);" % (mk, window(), pr("e")), holders=["ObjTupleIter"])
         add("iter", "map/filter iterator chain -> iterable", sname,
-            "fn mk() { return [%s, 0].iter().map(|e| [e]).filter(|e| true); } var c = mk(); %s %s" % (X, window(), pr("c.next()[0]")))
+            "fn mk() { return T([%s, 0]).iter().map(|e| [e]).filter(|e| true); } var c = mk(); %s %s" % (mk, window(), pr("c.next()[0]")), holders=["ObjVecIter"])
         # modules
         add("module", "module attribute", sname, 'import "m1"; %s %s' % (window(), pr("m1.data")),
-            mods={"m1": PRELUDE + "var data = %s;" % X})
+            mods={"m1": PRELUDE + "var data = %s;" % X}, holders=["ObjModule"])
         add("module", "closure of an imported module -> its globals", sname, 'fn get() { import "m1"; return m1.f; } var c = get(); %s %s' % (window(), pr("c()")),
-            mods={"m1": PRELUDE + "var hidden = %s; fn f() { return hidden; }" % X})
-        # fibers
+            mods={"m1": PRELUDE + "var hidden = %s; fn f() { return hidden; }" % X}, holders=["ObjModule"])
+        # fibers (fibers that reference each other through stack and caller form a cycle: the closure-based holder
+        # test then names every fiber of the cycle, hence max_holders=3 for those)
         add("fiber", "suspended fiber's stack", sname,
-            "var f = Fiber.new(|| { var x = %s; Fiber.yield(1); return x; }); f.call(); %s %s" % (X, window(), pr("f.call()")))
+            "var f = Fiber.new(|| { var x = %s; Fiber.yield(1); return x; }); f.call(); %s %s" % (X, window(), pr("f.call()")), holders=FB)
         add("fiber", "caller chain (object on a calling fiber's stack)", sname,
-            "var f = Fiber.new(|| { var x = %s; var g = Fiber.new(|| { %s return 1; }); g.call(); return x; }); %s" % (X, window(), pr("f.call()")))
+            "var f = Fiber.new(|| { var x = %s; var g = Fiber.new(|| { %s return 1; }); g.call(); return x; }); %s" % (X, window(), pr("f.call()")), holders=FB, max_holders=3)
         add("fiber", "value passed into a fiber on resume", sname,
-            "var f = Fiber.new(|| { var got = Fiber.yield(0); %s return got; }); f.call(); %s" % (window(), pr("f.call(%s)" % X)))
+            "var f = Fiber.new(|| { var got = Fiber.yield(0); %s return got; }); f.call(); %s" % (window(), pr("f.call(%s)" % X)), holders=FB, max_holders=3)
         add("open", "captured variable on a suspended fiber's stack (fiber kept)", sname,
-            "var f = Fiber.new(|| { var x = %s; fn g() { return x; } Fiber.yield(g); return 0; }); var c = f.call(); %s %s" % (X, window(), pr("c()")))
+            "var f = Fiber.new(|| { var x = %s; fn g() { return x; } Fiber.yield(g); return 0; }); var c = f.call(); %s %s" % (X, window(), pr("c()")), holders=FB)
         add("open", "captured variable on a calling fiber's stack", sname,
-            "var f = Fiber.new(|| { var x = %s; fn g() { return x; } var h = Fiber.new(|| { %s return g(); }); return h.call(); }); %s" % (X, window(), pr("f.call()")))
+            "var f = Fiber.new(|| { var x = %s; fn g() { return x; } var h = Fiber.new(|| { %s return g(); }); return h.call(); }); %s" % (X, window(), pr("f.call()")), holders=FB, max_holders=3)
         add("upvalue", "captured variable of a finished fiber (closed on return)", sname,
-            "fn mk() { var f = Fiber.new(|| { var x = %s; fn g() { return x; } return g; }); return f.call(); } var c = mk(); %s %s" % (X, window(), pr("c()")))
+            "fn mk() { var f = Fiber.new(|| { var x = %s; fn g() { return x; } return g; }); return f.call(); } var c = mk(); %s %s" % (X, window(), pr("c()")), holders=UP)
         add("open", "captured variable on a DROPPED suspended fiber's stack", sname,
             "fn mk() { var f = Fiber.new(|| { var x = %s; fn g() { return x; } Fiber.yield(g); return 0; }); return f.call(); } var c = mk(); %s %s" % (X, window(), pr("c()")),
-            known="open_upvalue_dead_fiber")
+            known="open_upvalue_dead_fiber", holders=FB)
         # interpreter-held values
         add("return_value", "return value held across a finally", sname,
-            "fn f() { try { return %s; } finally { %s } } %s" % (X, window(), pr("f()")))
+            "fn f() { try { return %s; } finally { %s } } %s" % (X, window(), pr("f()")), holders=FB)
         add("return_value", "thrown error (payload) held across a finally, caught outside", sname,
             # (locals inside a finally entered by an exception are mis-addressed: C08's business; allocate in a callee)
-            "fn w() { %s } fn f() { try { throw Error.new(%s); } finally { w(); } } try { f(); } catch e { %s }" % (window(), X, pr("e.context")))
+            "fn w() { %s } fn f() { try { throw Error.new(%s); } finally { w(); } } try { f(); } catch e { %s }" % (window(), X, pr("e.context")), holders=["ObjInstance"])
         add("stack", "operand stack: argument evaluated before an allocating argument", sname,
-            "fn two(a, b) { return a; } fn alloc() { %s return 0; } %s" % (window(), pr("two(%s, alloc())" % X)))
+            "fn two(a, b) { return a; } fn alloc() { %s return 0; } %s" % (window(), pr("two(%s, alloc())" % X)), holders=FB)
         # map keys (untraced before repair a563c74); only tuples (and strings, numbers) are hashable
         if sname == "tuple":
             add("key", "map key (only reference)", sname,
-                "fn mk() { var m = {}; m.insert(%s, 1); return m; } var c = mk(); %s for k in c.keys() { %s }" % (X, window(), pr("k")))
+                "fn mk() { var m = {}; m.insert(%s, 1); return m; } var c = mk(); %s for k in c.keys() { %s }" % (X, window(), pr("k")), holders=["ObjHashMap"])
             add("key", "map key (only reference) inside a nested map value", sname,
-                'fn mk() { var m = {}; m.insert(%s, 1); return {"in": [m]}; } var c = mk(); %s for k in c.get("in")[0].keys() { %s }' % (X, window(), pr("k")))
+                'fn mk() { var m = {}; m.insert(%s, 1); return {"in": [m]}; } var c = mk(); %s for k in c.get("in")[0].keys() { %s }' % (X, window(), pr("k")), holders=["ObjHashMap"])
     # key shape with hashing on use
     add("key", "map key (only reference), looked up by an equal key", "tuple",
-        'fn mk() { var m = {}; m.insert((1, "ab"), 5); return m; } var c = mk(); %s print(c.get((1, "ab"))); print(c.has_key((2, "ab")));' % window())
+        'fn mk() { var m = {}; m.insert(T((1, "ab")), 5); return m; } var c = mk(); %s print(c.get((1, "ab"))); print(c.has_key((2, "ab")));' % window(), holders=["ObjHashMap"])
     add("key", "map key in a literal", "tuple",
-        'fn mk() { return {(1, 2): "v"}; } var c = mk(); %s print(c.items());' % window())
-    # superclass link (untraced before repair 05235d7)
+        'fn mk() { return {T((1, 2)): "v"}; } var c = mk(); %s print(c.items());' % window(), holders=["ObjHashMap"])
+    # superclass link (untraced before repair 05235d7): the probed object is the ancestor class, a local of mk
     add("superclass", "class -> superclass (derives walks the chain)", "class",
-        "fn mk() { class A {} #[derive(A), constructor(new)] class B {} return B; } var c = mk(); %s print(c.new().derives(String)); print(c.new().derives(P));" % window())
+        "fn mk() { class A {} T(A); #[derive(A), constructor(new)] class B {} return B; } var c = mk(); %s print(c.new().derives(String)); print(c.new().derives(P));" % window(), holders=["ObjClass"])
     add("superclass", "class -> superclass -> superclass", "class",
-        "fn mk() { class A {} #[derive(A)] class B {} #[derive(B), constructor(new)] class C {} return C; } var c = mk(); %s print(c.new().derives(Error));" % window())
+        "fn mk() { class A {} T(A); #[derive(A)] class B {} #[derive(B), constructor(new)] class C {} return C; } var c = mk(); %s print(c.new().derives(Error));" % window(), holders=["ObjClass"])
     add("superclass", "instance -> class -> superclass, super call", "class",
-        "fn mk() { class A { fn m(self) { return [1]; } } #[derive(A), constructor(new)] class B { fn m(self) { return [super.m(), 2]; } } return B.new(); } var c = mk(); %s print(c.m()); print(c.derives(Error));" % window())
+        "fn mk() { class A { fn m(self) { return [1]; } } T(A); #[derive(A), constructor(new)] class B { fn m(self) { return [super.m(), 2]; } } return B.new(); } var c = mk(); %s print(c.m()); print(c.derives(Error));" % window(),
+        holders=["ObjClass", "ObjUpvalue"])
     # bound-method cycles (before repair ee7595b `blacken` re-greyed the receiver: endless loop / recursion)
     add("receiver", "bound-method 4-cycle (trace_references loops)", "cycle",
-        "var v = []; var x = v.push; var w = []; var y = w.push; v.push(y); w.push(x); %s print(v.len()); print(w.len());" % window(), regrey=True)
+        "var v = []; var x = v.push; var w = []; var y = w.push; v.push(y); w.push(x); %s print(v.len()); print(w.len());" % window(), regrey=True,
+        why_no_premise="the probed thing is the shape of the cycle, not a single owner")
     add("receiver", "bound method stored in a field of its receiver, receiver captured (blacken recursion)", "cycle",
-        "fn make() { var r = nil; #[constructor(new)] class A { fn m(self) { return r; } } r = A.new(); r.f = r.m; return r; } var keep = make(); %s print(keep.f().derives(P));" % window(), regrey=True)
+        "fn make() { var r = nil; #[constructor(new)] class A { fn m(self) { return r; } } r = A.new(); r.f = r.m; return r; } var keep = make(); %s print(keep.f().derives(P));" % window(), regrey=True,
+        why_no_premise="the probed thing is the shape of the cycle, not a single owner")
     add("receiver", "bound method stored in its own receiver (self-cycle terminates)", "cycle",
-        "var v = []; v.push(v.len); %s print(v[0]());" % window(), regrey=True)
-    # range cache
-    add("range", "range literal served from the range cache", "range",
-        "fn mk() { return 1..4; } mk(); %s for i in 1..4 { print(i); } print(mk());" % window())
-    add("iter", "range iterator -> range", "range", "fn mk() { return (2..5).iter(); } var c = mk(); %s print(c.next()); print(c.next());" % window())
-    add("iter", "string iterator -> string", "string", 'fn mk() { return ("a" + "bc").iter(); } var c = mk(); %s print(c.next()); print(c.next());' % window())
+        "var v = []; v.push(v.len); %s print(v[0]());" % window(), regrey=True, why_no_premise="the probed thing is the shape of the cycle, not a single owner")
+    # ranges.  The VM keeps a Root for each of the 8 most recently built ranges (vm.rs build_range): a range is reachable
+    # only through its iterator only after 8 OTHER distinct ranges have been built (evict()).
+    add("range", "range literal served from the range cache (cache is the only owner)", "range",
+        "fn mk() { return 1..4; } mk(); %s for i in 1..4 { print(i); } print(mk());" % window(),
+        why_no_premise="the probed owner is the cache's Root itself (num_roots > 0 by construction)")
+    for name, lo, hi in (("ascending", 2, 7), ("descending", 7, 2), ("ascending from a negative bound", -3, 2)):
+        add("iter", "range only through an explicit .iter(), cache evicted, then next() until StopIter", "range %s" % name,
+            "fn mk() { return T((%d)..(%d)).iter(); } var c = mk(); print(c.next()); %s %s" % (lo, hi, window(pre=evict()), DRAIN), holders=["ObjRangeIter"])
+        add("iter", "range only through the iterator of a running for loop, cache evicted in every pass", "range %s" % name,
+            "var k = 0; for i in T((%d)..(%d)) { %s k += 1; print(i); if k > 40 { print(\"runaway loop\"); break; } } print(k);" % (lo, hi, window(pre=evict())), holders=["ObjRangeIter"])
+        add("iter", "range only through an iterator held by a map/filter chain, cache evicted", "range %s" % name,
+            "fn mk() { return T((%d)..(%d)).iter().map(|e| [e]).filter(|e| true); } var c = mk(); %s %s" % (lo, hi, window(pre=evict()), DRAIN), holders=["ObjRangeIter"])
+    add("iter", "range iterator -> range while the range is still cached (cache not evicted)", "range",
+        "fn mk() { return (2..5).iter(); } var c = mk(); %s print(c.next()); print(c.next());" % window(),
+        why_no_premise="the range cache still owns the range: kept as the ordinary-use case, premise deliberately not claimed")
+    add("iter", "string iterator -> string (explicit .iter())", "string", 'fn mk() { return ("a" + "bc").iter(); } var c = mk(); %s print(c.next()); print(c.next());' % window(),
+        why_no_premise="every ObjString is permanently rooted by the intern table: a string is never reachable only through its iterator")
+    add("iter", "string only through the iterator of a running for loop", "string", 'fn mk() { return "a" + "bc"; } for ch in mk() { %s print(ch); }' % window(),
+        why_no_premise="every ObjString is permanently rooted by the intern table: a string is never reachable only through its iterator")
     # temporaries held by allocating natives / operators: the whole operation is the window
     temps = [
         ("split", 'print("a,b,c,d".split(","));'),
@@ -226,21 +268,22 @@ def probes():
         ("fiber arguments and results", 'var f = Fiber.new(|a| { var b = Fiber.yield([a, 1]); return (a, b); }); print(f.call([0])); print(f.call((9, 9)));'),
     ]
     for name, body in temps:
-        add("temp", "temporaries of %s" % name, "native", 'print("@@C"); %s print("@@C");' % body)
+        add("temp", "temporaries of %s" % name, "native", 'print("@@C"); %s print("@@C");' % body,
+            why_no_premise="the probed objects are Rust-side temporaries of a native, not nameable from the program")
     return out
 
 
 def probe_pairs(rng, n):
     """chains of two roles: X reachable only through role A then role B (containers / closures / fibers)"""
     wrap = [
-        ("vec", lambda e: "[0, %s]" % e, lambda c: "%s[1]" % c),
-        ("tuple", lambda e: "(%s, 0)" % e, lambda c: "%s[0]" % c),
-        ("mapval", lambda e: '{"k": %s}' % e, lambda c: '%s.get("k")' % c),
-        ("field", lambda e: "P.new(%s)" % e, lambda c: "%s.v" % c),
-        ("closure", lambda e: "(|| { var x = %s; return || x; })()" % e, lambda c: "%s()" % c),
-        ("bound", lambda e: "P.new(%s).get" % e, lambda c: "%s()" % c),
-        ("iter", lambda e: "[%s].iter()" % e, lambda c: "%s.next()" % c),
-        ("fiber", lambda e: "(|| { var f = Fiber.new(|| { var x = %s; Fiber.yield(0); return x; }); f.call(); return f; })()" % e, lambda c: "%s.call()" % c),
+        ("vec", lambda e: "[0, %s]" % e, lambda c: "%s[1]" % c, "ObjVec"),
+        ("tuple", lambda e: "(%s, 0)" % e, lambda c: "%s[0]" % c, "ObjTuple"),
+        ("mapval", lambda e: '{"k": %s}' % e, lambda c: '%s.get("k")' % c, "ObjHashMap"),
+        ("field", lambda e: "P.new(%s)" % e, lambda c: "%s.v" % c, "ObjInstance"),
+        ("closure", lambda e: "(|| { var x = %s; return || x; })()" % e, lambda c: "%s()" % c, "ObjUpvalue"),
+        ("bound", lambda e: "P.new(%s).get" % e, lambda c: "%s()" % c, "ObjInstance"),
+        ("iter", lambda e: "[%s].iter()" % e, lambda c: "%s.next()" % c, "ObjVec"),
+        ("fiber", lambda e: "(|| { var f = Fiber.new(|| { var x = %s; Fiber.yield(0); return x; }); f.call(); return f; })()" % e, lambda c: "%s.call()" % c, "ObjFiber"),
     ]
     out = []
     combos = [(a, b) for a in wrap for b in wrap]
@@ -248,9 +291,9 @@ def probe_pairs(rng, n):
     for a, b in combos[:n]:
         sname, mk, show = SHAPES[rng.randrange(len(SHAPES))]
         src = PRELUDE + "fn mk() { return %s; } var c = mk(); %s print(%s);" % (
-            a[1](b[1](mk)), window(), show.format(x=b[2]("(" + a[2]("c") + ")")))
+            a[1](b[1]("T(%s)" % mk)), window(), show.format(x=b[2]("(" + a[2]("c") + ")")))
         out.append({"tag": "pair", "role": "%s -> %s" % (a[0], b[0]), "shape": sname, "src": src, "mods": {},
-                    "known": None, "regrey": a[0] == "bound" or b[0] == "bound"})
+                    "known": None, "regrey": a[0] == "bound" or b[0] == "bound", "holders": [b[3]], "why_no_premise": None})
     return out
 
 
@@ -263,7 +306,7 @@ def random_program(rng):
     nf = 0
     bound = False
     for i in range(n):
-        k = rng.choice(["vec", "vec", "tuple", "map", "inst", "closure", "bound", "iter", "fiber", "str"])
+        k = rng.choice(["vec", "vec", "tuple", "map", "inst", "closure", "bound", "iter", "fiber", "str", "riter"])
         if k == "fiber" and nf >= 6:
             k = "vec"
         prev = ["o%d" % j for j in range(i)]
@@ -285,6 +328,11 @@ def random_program(rng):
             lines.append("var o%d = %s;" % (i, rng.choice(["P.new(%s).get" % ref, "[%s].len" % ref])))
         elif k == "iter":
             lines.append("var o%d = [%s, %s].iter();" % (i, ref, ref2))
+        elif k == "riter":
+            # a range that only its iterator holds once the range cache has been flushed (window(pre=evict()))
+            lo = rng.randint(-5, 5)
+            hi = lo + rng.choice([-4, -2, 3, 5])
+            lines.append("var o%d = ((%d)..(%d)).iter(); o%d.next();" % (i, lo + 100 * i, hi + 100 * i, i))
         elif k == "fiber":
             nf += 1
             lines.append("var o%d = Fiber.new(|| { var x = %s; var got = Fiber.yield(x); return (got, %s); }); o%d.call();" % (i, ref, ref2, i))
@@ -306,7 +354,7 @@ def random_program(rng):
         lines.append("keep.push(o%d);" % i)
     for i in range(n):
         lines.append("o%d = nil;" % i)
-    lines.append(window())
+    lines.append(window(pre=evict()).replace('print("@@PREMISE");', ""))
 
     def use(expr, kind, depth):
         if kind == "closure":
@@ -315,6 +363,8 @@ def random_program(rng):
             return "print(%s());" % expr
         if kind == "iter":
             return "print(%s.next());" % expr
+        if kind == "riter":
+            return "print(%s.next()); print(%s.next());" % (expr, expr)
         if kind == "fiber":
             return "print(%s.call(1));" % expr
         if kind == "inst":
@@ -325,7 +375,8 @@ def random_program(rng):
     lines.append(garb(3))
     lines.append("print(keep.len());")
     return {"tag": "random", "role": "random heap", "shape": "+".join(sorted(set(kinds))), "src": "\n".join(lines),
-            "mods": {}, "known": None, "regrey": bound}
+            "mods": {}, "known": None, "regrey": bound, "holders": None,
+            "why_no_premise": "random program: no single probed object"}
 
 
 # ------------------------------------------------------------------------------------------
@@ -360,13 +411,43 @@ def window_collections(rec):
     return 0
 
 
+def type_short(hexname):
+    n = yvlib.unhx(hexname).decode()
+    return n.replace("core::cell::RefCell<", "").replace("yarel::object::", "").replace("yarel::chunk::", "")
+
+
+def premise(p, rec):
+    """(verified?, reason) for a probe that tags its probed object: at every @@PREMISE point of the run the tagged
+    box has num_roots = 0 and every reachable direct holder is of an expected type"""
+    if not p.get("holders"):
+        return None, p.get("why_no_premise") or "no tagged object"
+    ps = [x for x in rec.tagged("P") if x and x[0] == "0"]
+    if not ps:
+        return False, "no premise record (the program did not reach its @@PREMISE point)"
+    for x in ps:
+        if len(x) >= 2 and x[1] == "gone":
+            # the probed object is not in the heap any more at the collection point: nothing owns it at all
+            continue
+        roots = int(x[1])
+        holders = [type_short(h) for h in x[3:]]
+        if roots > 0:
+            return False, "probed %s is rooted (num_roots %d): another owner besides the probed role" % (type_short(x[2]), roots)
+        odd = [h for h in holders if not any(h.startswith(e) for e in p["holders"])]
+        if odd:
+            return False, "probed %s is also held by %s (expected only %s)" % (type_short(x[2]), sorted(set(odd)), p["holders"])
+        if len(holders) > p.get("max_holders", 1):
+            return False, "probed %s has %d direct holders %s (expected at most %d)" % (type_short(x[2]), len(holders), holders, p.get("max_holders", 1))
+    return True, ""
+
+
 def judge(ctx, p, ref, runs, fixed_state):
     """ref: outcome under gc=never; runs: [(config name, Record)].  Returns (failed, nontrivial)."""
     bad = None
     nontriv = False
     for cfg, rec in runs:
         o = outcome(rec)
-        if window_collections(rec) > 0 and o["uaf"] == 0 and o["res"] == ref["res"] and o["out"] == ref["out"]:
+        pv, _ = premise(p, rec)
+        if window_collections(rec) > 0 and o["uaf"] == 0 and o["res"] == ref["res"] and o["out"] == ref["out"] and pv is not False:
             nontriv = True
         why = None
         if rec.crashed == "timeout":
@@ -425,7 +506,19 @@ def run_probes(ctx, plist, label):
     nontriv = set()
     failed = 0
     bad_ref = 0
+    prem = ctx.cov.setdefault("premise", {"claimed": 0, "verified": 0, "unverified": [], "not_claimed": {}})
     for p, r0, r1, r2 in zip(plist, refs, r_dbg, r_rel):
+        pv1, why1 = premise(p, r1)
+        pv2, why2 = premise(p, r2)
+        if pv1 is None:
+            w = why1 if p["tag"] != "temp" else "Rust-side temporaries of a native"
+            prem["not_claimed"][w] = prem["not_claimed"].get(w, 0) + 1
+        else:
+            prem["claimed"] += 1
+            if pv1 and pv2:
+                prem["verified"] += 1
+            else:
+                prem["unverified"].append("%s [%s / %s]: %s" % (p["tag"], p["role"], p["shape"], why1 or why2))
         ref = outcome(r0)
         if r0.crashed or ref["res"] == "panic" or ref["uaf"]:
             # the comparison run itself must be clean: otherwise the probe program is wrong, not the collector
@@ -714,12 +807,18 @@ def finish(ctx, plist, nontriv, failed, nsnap, nsnap_nontriv):
     others.sort(key=lambda v: (v.get("probe_tag") in ("random", "pair", "snapshot"), len(v.get("input", ""))))
     ctx.violations[:] = list(seen.values()) + others[:5]
     roles = sorted({(p["tag"], p["role"]) for p in plist})
+    prem = ctx.cov.get("premise", {})
+    if prem.get("unverified"):
+        ctx.notes.append("%d probes could not verify their premise (object reachable ONLY through the probed role) and are not counted as "
+                         "non-trivial: %s" % (len(prem["unverified"]), "; ".join(prem["unverified"][:6])))
     ctx.cov.update({
         "evaluations": 3 * len(plist) + nsnap,
         "distinct_nontrivial": len(nontriv) + nsnap_nontriv,
         "rule": "a (role, shape) probe counts when, in a stress configuration, at least one collection ran between the two marks "
                 "that delimit the stretch in which the probed object is reachable only through the probed role (collections counter of hook H2), "
-                "no use-after-reclaim event fired and the output (which prints the object afterwards) equals the never-collect run; "
+                "no use-after-reclaim event fired, the output (which prints the object afterwards) equals the never-collect run, and - for probes that tag their "
+                "probed object (premise_claimed) - the harness verified on a heap snapshot at the collection point that the object has num_roots = 0 and no reachable "
+                "direct holder other than the probed one (premise_verified); "
                 "a heap snapshot counts when the forced collection freed something and retained at least one non-root box",
         "samples": [plist[0]["src"][-300:], plist[-1]["src"][-400:]],
         "probes": len([p for p in plist if p["tag"] not in ("pair", "random")]),
@@ -728,6 +827,8 @@ def finish(ctx, plist, nontriv, failed, nsnap, nsnap_nontriv):
         "random_programs": len([p for p in plist if p["tag"] == "random"]),
         "random_shape_distribution": dist([p["shape"] for p in plist if p["tag"] == "random"]),
         "probes_failed": failed,
+        "premise_claimed": ctx.cov.get("premise", {}).get("claimed", 0),
+        "premise_verified": ctx.cov.get("premise", {}).get("verified", 0),
         "snapshots_compared_with_model": nsnap, "snapshots_nontrivial": nsnap_nontriv,
         "traces_validated_against_impl": nsnap,
         "configurations": ["release gc=never (reference)", "debug (collects at every allocation)", "release gc=always"],
